@@ -18,7 +18,7 @@ from dsim.c14 import launcher
 PROP = "C14"
 
 TIERS = {
-    "quick": {"targets": 320, "runs": 340, "ref_seeds": [0, 1, 20260924, 4242], "fresh_checks": 6, "redo": 8, "min_budget": 24,
+    "quick": {"targets": 320, "runs": 400, "ref_seeds": [0, 1, 20260924, 4242], "fresh_checks": 6, "redo": 8, "min_budget": 24,
               "chunk": 12, "budget_s": 420, "torchlib": False},
     "thorough": {"targets": 2600, "runs": 12000, "ref_seeds": [0, 1, 2, 3, 7, 1234567, 20260924, 4294967295], "fresh_checks": 40,
                  "redo": 250, "min_budget": 60, "chunk": 25, "budget_s": 3300, "torchlib": True, "per_family": 10},
@@ -112,7 +112,7 @@ def gen_targets(seed: int, tier: dict, pools) -> list[dict]:
     # Each batch goes deep on a seeded subset of the families (>= 4 members each) rather than thin on all.
     gen_fams = sorted(genmodels.FAMILIES)
     rng.sub("famorder").shuffle(gen_fams)
-    per_fam = tier.get("per_family", 3)
+    per_fam = tier.get("per_family", 5)
     n_gen = len(gen_fams)
     gen_slots = [gen_fams[i // per_fam] for i in range(n_gen * per_fam)]
     # the version converter's own test models are the ones on which adapters replace nodes
@@ -131,7 +131,8 @@ def gen_targets(seed: int, tier: dict, pools) -> list[dict]:
     for i in range(len(gen_slots) + len(script_slots) + max(8, n_models // 3)):
         r = rng.sub("m", i)
         if i < len(gen_slots):
-            f, text = genmodels.gen_model(r.sub("gen"), gen_slots[i])
+            f, text = genmodels.gen_model(r.sub("gen"), gen_slots[i], member=i % per_fam,
+                                          offset=rng.sub("variant-offset", gen_slots[i]).below(64))
             m = {"pool": "text", "text": text, "family": f}
         elif i < len(gen_slots) + len(script_slots):
             f, fn, src = script_slots[i - len(gen_slots)]
@@ -139,7 +140,7 @@ def gen_targets(seed: int, tier: dict, pools) -> list[dict]:
         else:
             m = pools.model_ref(r, family=r.choice(fams) if r.chance(0.6) else None)
         fam = m.pop("family", None) or m.get("path", "")
-        k = r.randint(3, 5)
+        k = r.randint(2, 4) if fam.startswith("gen:") else r.randint(3, 5)
         if fam.startswith("gen:") and r.chance(0.35):
             # version conversion through a long-lived pass, to a target that is (or is not) the model's own version
             add(with_id({"kind": "convert", "model": m, "family": fam, "target": r.choice([18, 20, 23]), "fallback": False, "api": "pass"}))
@@ -164,8 +165,8 @@ def gen_targets(seed: int, tier: dict, pools) -> list[dict]:
 def _rule_bearing(op: dict) -> bool:
     """Does the operation run shipped rewrite-rule singletons over the model?"""
     if op["kind"] == "rewrite":
-        return not str(op.get("rules", "")).startswith("fusion:") or True
-    return op["kind"] == "optimize" and op.get("api") in ("proto", "ir", "ir_should_fold")
+        return True
+    return op["kind"] == "optimize" and op.get("api") not in ("remove_unused", "inline")
 
 
 def _pair_run(rng: Rng, pool: list[dict], failing: set, length: int, changing: set | None = None) -> list[dict]:
@@ -183,7 +184,9 @@ def _pair_run(rng: Rng, pool: list[dict], failing: set, length: int, changing: s
             # that is when per-call state on the shared object gets written before the fault lands
             movers = [t for t in pool if changing and t["id"] in changing]
             a = copy.deepcopy(rng.choice(movers if movers and rng.chance(0.75) else pool))
-            a["fault"] = {"frac": rng.below(10**6) / 10**6}
+            if rng.chance(0.65):
+                a["fault"] = {"frac": rng.below(10**6) / 10**6}
+            # else: A completes normally — state stashed on the shared object by a *successful* predecessor
         others = [t for t in pool if jdump(t.get("model")) != jdump(a.get("model"))] or pool
         b = copy.deepcopy(rng.choice(others))
         ops += [a, b]
@@ -232,8 +235,8 @@ def gen_runs(seed: int, tier: dict, targets: list[dict], repo: str, failing: set
         ops = []
         # a fixed share of every batch walks the rule-parameter families and the stateful objects systematically
         # (round-robin, not sampled), as fail-then pairs: this is where "state survives a failed operation" lives
-        if r % 5 == 0 and gfams:
-            fam = gfams[(r // 5) % len(gfams)]
+        if r % 5 in (0, 4) and gfams:
+            fam = gfams[(2 * (r // 5) + (r % 5) // 4) % len(gfams)]
             pool = [t for t in by_family[fam] if _rule_bearing(t)]
             if len(pool) >= 2:
                 template, env["template"] = "pairs_family", "pairs_family"
@@ -243,7 +246,7 @@ def gen_runs(seed: int, tier: dict, targets: list[dict], repo: str, failing: set
             if len(by_obj[ob]) >= 2:
                 template, env["template"] = "pairs_object", "pairs_object"
                 ops = _pair_run(rng, by_obj[ob], failing, length, changing)
-        elif r % 5 == 2 and len(custom_scripts) >= 2:
+        elif r % 10 == 2 and len(custom_scripts) >= 2:
             # scripts whose helpers live in the same custom opset domain at different versions (Opset singletons are
             # process-wide), plus revisits of long-lived OnnxFunctions
             template, env["template"] = "shared_opset_domain", "shared_opset_domain"
